@@ -32,7 +32,9 @@ def call(pts, tol, mode):
     # the property does not depend on the unit of length: a third of the calls are made on coordinates AND tolerance divided
     # by 4 (exact in binary floating point; a lattice box is then smaller than one unit)
     h_ = (len(pts) + int(sum(3 * p[0] + p[1] for p in pts))) % 6
-    sc = 0.25 if h_ in (0, 3) else (0.1 if h_ == 1 else 1.0)      # 0.1: coordinates in tenths, NOT exact in binary floating point
+    # 0.1: coordinates in tenths, NOT exact in binary floating point; 2^-20: a lattice step is a micrometre (a creeping receiver:
+    # consecutive fixes closer than any "same position" tolerance, cumulated displacement far above the tolerance of the call)
+    sc = 0.25 if h_ == 0 else (2.0 ** -20 if h_ == 3 else (0.1 if h_ == 1 else 1.0))
     e["scale"] = sc
     hist = (len(pts) + int(sum(p[0] + 2 * p[1] for p in pts)) + (1 if mode == "dp" else 0)) % 2 == 0
     md = MODE_SIMPLIFY_DOUGLAS_PEUCKER if mode == "dp" else MODE_SIMPLIFY_VISVALINGAM
